@@ -30,6 +30,8 @@ func runC10(c *Ctx) {
 	c.Rule("R10.8", 4, "the slice a memoising attribute hands out is not kept or extended as it is (follow sets own their storage)")
 	c.Rule("R10.6", 8, "memoised attributes (nullable/firstpos/lastpos) are evaluated only after positions have been assigned")
 
+	c.Rule("R10.9", 1, "a character group is a set in both routes: listing a character twice is listing it once (= R2.6)")
+	checkMembershipIdempotent(c, "R10.9", "internal/regex/parser/nfa", "internal/regex/parser/ast")
 	ap := c.Pkg("internal/regex/parser/ast")
 	if ap == nil {
 		c.Lost("R10.1", "package internal/regex/parser/ast")
